@@ -61,7 +61,7 @@ func (ex *Exec) buildQuery(o *Obligation, modelTerms []*smt.Term) string {
 		sb.WriteString("))\n")
 		footer += sb.String()
 	}
-	return c.Script("", asserts, footer)
+	return c.Script("", asserts, footer, modelTerms...)
 }
 
 func runSolver(sp solverSpec, script string, timeoutS int) (status, output string, secs float64) {
